@@ -8,6 +8,7 @@ from vf import env, gen, judge, scenario
 from vf.lib import Mon, observe
 from vf.ref import data, lookup
 from vf.ref import iban as R
+from vf.ref import national as N  # noqa: F401
 
 META = {
     "level": "exploration",
@@ -96,7 +97,7 @@ def bank_entry(cc, code, bic, name, primary=None):
 def scenario_docs(k: int, rng: random.Random):
     """(overlays, affected countries, description)."""
     table = data.countries()  # the unmodified tree (plan() runs in the orchestrator)
-    kinds = ["new_country", "partial_positions", "scalar_dict", "name_order", "v2_bank", "bank_between", "one_key", "random_mix"]
+    kinds = ["new_country", "partial_positions", "scalar_dict", "name_order", "v2_bank", "bank_between", "one_key", "sandwich", "random_mix"]
     kind = kinds[k % len(kinds)] if k < 2 * len(kinds) else "random_mix"
     ov, aff = {}, []
     if kind == "new_country":
@@ -120,7 +121,7 @@ def scenario_docs(k: int, rng: random.Random):
     elif kind == "name_order":
         cc = "QQ"
         names = ["10_x.json", "9_x.json", "A_x.json", "a_x.json", "B_x.json", "_x.json", "zz.json", "z.json", "generated_.json", "overwrite_.json", "overwrite.v1.json",
-                 "zz-site.json", "zz site.json", "zz+1.json", "overwrite-local.json", "zz(1).json"]
+                 "zz-site.json", "zz site.json", "zz+1.json", "overwrite-local.json", "zz(1).json", ".site.json", ".zz.json", "~x.json"]
         rng.shuffle(names)
         base = new_country(cc, rng, sepa=False)
         for i, nme in enumerate(names):
@@ -161,17 +162,34 @@ def scenario_docs(k: int, rng: random.Random):
         ov["bank_registry/generated_dz.json"] = [bank_entry(c, b, "BBBBDEFFXXX", "Between", True) for c, b in picks[1:3]]
         ov["bank_registry/zz_after_all.json"] = [bank_entry(c, b, "CCCCDEFF", "After all", True) for c, b in picks[2:]]
         ov["bank_registry/Z_upper.json"] = [bank_entry(c, b, "DDDDDEFF", "Upper-case name", False) for c, b in picks[:1]]
+        ov["bank_registry/.house.json"] = [bank_entry(c, b, "HHHHDEFF", "Dot file", True) for c, b in picks[:3]]
         ov["bank_registry/a_before_all-extra.json"] = [bank_entry(c, b, "FFFFDEFF", "Hyphenated sibling", True) for c, b in picks[:2]]
         ov["bank_registry/zz_after_all-1.json"] = [bank_entry(c, b, "GGGGDEFF", "Hyphenated sibling after", False) for c, b in picks[2:]]
         ov["bank_registry/_underscore.json"] = [bank_entry(c, b, "EEEEDEFF", "Underscore name", False) for c, b in picks[:1]]
         aff = sorted({c for c, _ in picks})
+    elif kind == "sandwich":
+        # dict (bundled) -> non-dict (first overlay) -> dict (second overlay) on the same path, at field level and
+        # at country level: the last dict REPLACES, it is not merged into the bundled one
+        # (countries without a national algorithm: removing fields of the others would make the data inconsistent)
+        c1 = rng.choice([c for c in ("GB", "BR", "BG", "GR", "CY", "MT") if c in table and "branch_code" in table[c].get("positions", {})])
+        c2 = rng.choice([c for c in ("AD", "LU", "CH", "AT", "NL", "LV") if c in table and c != c1])
+        p1 = table[c1]["positions"]
+        keep = {k: p1[k] for k in ("bank_code", "account_code") if k in p1}
+        whole = copy.deepcopy(table[c2])
+        whole["positions"] = {"bank_code": whole["positions"]["bank_code"], "account_code": whole["positions"]["account_code"]}
+        whole.pop("bic_lookup_components", None)
+        ov["iban_registry/site_1_reset.json"] = {c1: {"positions": None}, c2: None}
+        ov["iban_registry/site_2_define.json"] = {c1: {"positions": keep}, c2: whole}
+        if rng.random() < 0.5:
+            ov["iban_registry/site_3_more.json"] = {c1: {"in_sepa_zone": {"x": 1}}, c2: {"marker": [1, 2]}}
+        aff = [c1, c2]
     elif kind == "one_key":
         cc = rng.choice(sorted(table))
         ov["iban_registry/zz_one.json"] = {cc: {"in_sepa_zone": not table[cc].get("in_sepa_zone", False)}}
         aff = [cc]
     else:
         for j in range(rng.randint(1, 3)):
-            sub_ov, sub_aff, _ = scenario_docs(rng.randrange(len(kinds) - 1), rng)
+            sub_ov, sub_aff, _ = scenario_docs(rng.randrange(len(kinds) - 2), rng)
             for p, d in sub_ov.items():
                 p2 = p.replace(".json", f"_{j}.json") if not p.endswith(".v2.json") else p.replace(".v2.json", f"_{j}.v2.json")
                 ov[p2] = d
